@@ -98,20 +98,56 @@ theorem finishStruct_eq (E : Ext) (env : Env) (hwf : envWF env = true) (strict :
     | error e => rfl
     | ok slots => simp
 
+/-! ### documents without anything unknown -/
+
+theorem table_contains (fields : List FieldDef) (k : String) :
+    ((fields.map fun f => (f.name, f.ty)).find? (·.1 == k)).isSome = (fields.map (·.name)).contains k := by
+  induction fields with
+  | nil => rfl
+  | cons f rest ih =>
+    simp only [List.map_cons, List.find?_cons, List.contains_cons]
+    by_cases h : f.name = k
+    · simp [h]
+    · have h1 : (f.name == k) = false := by simpa using h
+      have h2 : (k == f.name) = false := by simpa using fun h' => h h'.symm
+      simp only [h1, h2, Bool.false_or]
+      exact ih
+
+/-- no member outside the table (the discriminator aside): the strict check of `decode_struct` passes -/
+theorem knownMembers_strict_ok (A : Env) (c : String) : ∀ (kvs : List (String × JVal)),
+    knownMembers A (structTable A c) kvs = true →
+    kvs.any (fun kx => !((publicFields A c).map (·.name)).contains kx.1 && !kx.1.startsWith ".tag") = false
+  | [], _ => rfl
+  | (k, x) :: rest, h => by
+    simp only [knownMembers, Bool.and_eq_true] at h
+    have ih := knownMembers_strict_ok A c rest h.2
+    simp only [List.any_cons, ih, Bool.or_false]
+    have h1 := h.1
+    rw [← table_contains]
+    unfold structTable at h1
+    cases hf : ((publicFields A c).map fun f => (f.name, f.ty)).find? (·.1 == k) with
+    | some p => simp
+    | none => simp only [hf] at h1; simp [h1]
+
 /-- `finishStruct` for a pair of classes whose visible field tables are related -/
 theorem finishStruct_sub (E : Ext) {ρ : Rho} {A B : Env} (cx : Ctx ρ A B) {a b : String} {sa sb : StructDef}
     (hsa : A.struct? a = some sa) (hsb : B.struct? b = some sb)
     (hcommon : ∀ f ∈ publicFields A a, ∃ g ∈ publicFields B b, fieldSub ρ f g = true)
     (kvs : List (String × JVal)) {cA cB : List (String × R PyVal)}
-    (hch : ∀ f ∈ publicFields A a, ChildRel ρ A cA cB f.name f.ty) (sB : Bool) (w : PyVal)
+    (hch : ∀ f ∈ publicFields A a, ChildRel ρ A cA cB f.name f.ty) (sA sB : Bool) (w : PyVal)
+    (hk : sA = true → knownMembers A (structTable A a) kvs = true)
     (h : finishStruct E B [] sB b kvs cB = .ok w) :
     ∃ slotsB, w = .struct b slotsB ∧
-      finishStruct E A [] false a kvs cA =
+      finishStruct E A [] sA a kvs cA =
         .ok (.struct a (orderSlots (publicFields A a) (viewSlots ρ A (publicFields A a) slotsB))) := by
   have hnA := publicFields_nodup cx.wfA a
   have hnB := publicFields_nodup cx.wfB b
   rw [finishStruct_eq E B cx.wfB sB hsb] at h
-  rw [finishStruct_eq E A cx.wfA false hsa]
+  rw [finishStruct_eq E A cx.wfA sA hsa]
+  have hstrict : (sA && kvs.any (fun kx => !((publicFields A a).map (·.name)).contains kx.1 && !kx.1.startsWith ".tag")) = false := by
+    cases sA with
+    | false => rfl
+    | true => rw [Bool.true_and]; exact knownMembers_strict_ok A a kvs (hk rfl)
   split at h
   · cases h
   · cases hrun : runFields E B cB (publicFields B b) with
@@ -137,7 +173,7 @@ theorem finishStruct_sub (E : Ext) {ρ : Rho} {A B : Env} (cx : Ctx ρ A B) {a b
           apply filterMap_congr'
           intro f hf
           rw [lookupSlot_viewSlots, find_name_of_mem hnA hf]
-        simp only [Bool.false_and, Bool.false_eq_true, if_false, hrunA, hslots]
+        simp only [hstrict, Bool.false_eq_true, if_false, hrunA, hslots]
         have hallA : ((publicFields A a).all fun f =>
             attrHas f (orderSlots (publicFields A a) (viewSlots ρ A (publicFields A a) slotsB))) = true := by
           rw [List.all_eq_true]
